@@ -1,10 +1,11 @@
 package gateway
 
 import (
+	"github.com/hydraide/hydraide/app/core/hydra/swamp/bucket/valuecanon"
 	"sort"
 
-	hydrapb "github.com/hydraide/hydraide/sdk/go/hydraidego/v3/hydraidepbgo"
 	"github.com/hydraide/hydraide/app/core/hydra/swamp/treasure"
+	hydrapb "github.com/hydraide/hydraide/sdk/go/hydraidego/v3/hydraidepbgo"
 	"google.golang.org/protobuf/types/known/timestamppb"
 )
 
@@ -370,6 +371,16 @@ func evaluateBytesFieldFilterAgainstMap(decoded map[string]interface{}, filter *
 		return false
 	}
 
+	// Equality follows the one canonical rule the bucket index uses
+	// (valuecanon.Equal), so that a record matches an EQUAL leg on the scan
+	// route exactly when the index route finds it: numbers are equal across
+	// int/uint/float kinds only when the conversion is lossless (1.5 is not 1).
+	if op == hydrapb.Relational_EQUAL {
+		if ref, ok := compareValueToAny(filter); ok {
+			return valuecanon.Equal(valuecanon.Canonicalize(fieldVal), valuecanon.Canonicalize(ref))
+		}
+	}
+
 	switch cv := filter.GetCompareValue().(type) {
 	case *hydrapb.TreasureFilter_Int8Val:
 		if v, ok := toInt64(fieldVal); ok {
@@ -447,12 +458,10 @@ func evaluateInt32In(fieldVal interface{}, vals []int32) bool {
 	if fieldVal == nil || len(vals) == 0 {
 		return false
 	}
-	v, ok := toInt64(fieldVal)
-	if !ok {
-		return false
-	}
+	// canonical equality, as for EQUAL (see evaluateBytesFieldFilterAgainstMap)
+	v := valuecanon.Canonicalize(fieldVal)
 	for _, allowed := range vals {
-		if v == int64(allowed) {
+		if valuecanon.Equal(v, valuecanon.Canonicalize(int64(allowed))) {
 			return true
 		}
 	}
@@ -464,12 +473,9 @@ func evaluateInt64In(fieldVal interface{}, vals []int64) bool {
 	if fieldVal == nil || len(vals) == 0 {
 		return false
 	}
-	v, ok := toInt64(fieldVal)
-	if !ok {
-		return false
-	}
+	v := valuecanon.Canonicalize(fieldVal)
 	for _, allowed := range vals {
-		if v == allowed {
+		if valuecanon.Equal(v, valuecanon.Canonicalize(allowed)) {
 			return true
 		}
 	}
